@@ -3,7 +3,8 @@ package symgo
 // The serialisation boundary (interface assumptions A-SER and A-JSON of DESIGN.md §3):
 // Response.MarshalBinary / ParseResponse and json.Marshal / json.Unmarshal of the
 // variant index are intercepted; the "bytes" are an opaque token carrying a deep copy
-// of the value.  Everything around them (responseCache, driver.Conn implementations,
+// of the value (strings coerced to valid UTF-8 as encoding/json does, jsonutf8.go).
+// Everything around them (responseCache, driver.Conn implementations,
 // the transport) runs as real code.
 
 import (
@@ -150,7 +151,8 @@ func init() {
 	}
 	ext["encoding/json.Marshal"] = func(fr *frame, a []value) (value, bool) {
 		v := a[0].(iface)
-		return tuple{[]value{blob{"json:" + typeString(v.t), deepCopy(v.v, map[*value]*value{})}}, iface{}}, true
+		cp := fr.jsonCoerce(deepCopy(v.v, map[*value]*value{}), map[*value]bool{})
+		return tuple{[]value{blob{"json:" + typeString(v.t), cp}}, iface{}}, true
 	}
 	ext["encoding/json.Unmarshal"] = func(fr *frame, a []value) (value, bool) {
 		data, _ := a[0].([]value)
@@ -176,7 +178,7 @@ func init() {
 			panic(nilDeref())
 		}
 		v := a[1].(iface)
-		doc := []value{blob{"json:" + typeString(v.t), deepCopy(v.v, map[*value]*value{})}}
+		doc := []value{blob{"json:" + typeString(v.t), fr.jsonCoerce(deepCopy(v.v, map[*value]*value{}), map[*value]bool{})}}
 		m := fr.i.prog.LookupMethod(w.t, nil, "Write")
 		if m == nil {
 			abort("json.Encoder: writer %v has no Write", w.t)
